@@ -263,7 +263,7 @@ class State:
     def new_instance(self, cdef, full=True):
         props = self.key_props(cdef)
         for d in self.s.exposed(cdef.name).values():
-            if not d.key and d.type != 'reference' and \
+            if not d.key and d.type != 'reference' and not d.embedded and \
                     self.rng.random() < (0.6 if full else 0.2):
                 props.append(CIMProperty(
                     d.name, cimgen.value(self.rng, d.type, d.is_array),
@@ -316,12 +316,20 @@ class State:
         p.host = None
         return p
 
-    def assoc_instance(self, ns, cdef, cross=False, w=None):
+    def assoc_instance(self, ns, cdef, cross=False, w=None, extra=None):
+        """extra: set the non-key references too (None: half of the time),
+        always in the target namespace."""
         refs = [p for p in cdef.props if p.type == 'reference']
         props = []
+        if extra is None:
+            extra = self.rng.random() < 0.5
         for i, r in enumerate(refs):
+            if not r.key and not extra:
+                continue
             ep = self.endpoint(ns, r.ref_class, cross and i == 1, cdef)
             if ep is None:
+                if not r.key:
+                    continue
                 return None
             props.append(CIMProperty(r.name, ep, type='reference',
                                      reference_class=r.ref_class))
@@ -577,7 +585,7 @@ def b_undefined_alias(st, ns):
     c = st.pick(st.schema_classes(ns, assoc=True))
     if c is None:
         return None
-    refs = [p for p in c.props if p.type == 'reference']
+    refs = [p for p in c.props if p.type == 'reference' and p.key]
     return Elem('instance of %s {\n%s};\n' % (c.name, ''.join(
         '    %s = $%s;\n' % (r.name, st.fresh('nosuchalias'))
         for r in refs)), None, [], 'instance')
@@ -590,7 +598,7 @@ def b_assoc_endpoint_missing(st, ns):
     inst = st.assoc_instance(ns, c)
     if inst is None:
         return None
-    refs = [p for p in c.props if p.type == 'reference']
+    refs = [p for p in c.props if p.type == 'reference' and p.key]
     bad = inst.properties[refs[-1].name].value.copy()
     k = sorted(bad.keybindings)[0]
     if not isinstance(bad.keybindings[k], str):
@@ -684,8 +692,10 @@ class Monitor:
         self.last = None
 
     def faulted(self, api, reason, fn, desc, k=None, n=None, prefix=(),
-                batch=False, tag=None):
-        """Run one faulted call and judge it."""
+                batch=False, tag=None, typed=False):
+        """Run one faulted call and judge it.  typed: a WBEM operation
+        called with arguments of the documented types - whatever it raises
+        must be a pywbem.Error."""
         ctx = self.ctx
         st = self.st
         # the dump after the previous faulted call is still valid unless
@@ -715,6 +725,19 @@ class Monitor:
         ctx.count('raised:%s/%s' % (api, reason))
         if tag:
             ctx.count('raised:' + tag)
+        if typed and not isinstance(raised, pywbem.Error):
+            import traceback
+            ctx.violation(
+                'atomicity.exc.%s.%s@%s' % (api, type(raised).__name__,
+                                            repogen.mock_frame(raised) or
+                                            '<outside-mock>'),
+                '%s raised %s: %s - a WBEM operation called with arguments '
+                'of the documented types fails with a pywbem.Error' % (
+                    desc, type(raised).__name__, short(str(raised), 200)),
+                {'api': api, 'reason': reason, 'call': short(desc, 3000),
+                 'traceback': ''.join(traceback.format_exception(
+                     type(raised), raised, raised.__traceback__)[-5:])[-2500:],
+                 'schema': st.s.describe()})
         after = dump(st.conn)
         self.last = after
         big = len(before) >= 2 or dump_size(before) >= 5
@@ -913,13 +936,29 @@ def _objdesc(o):
 
 # ================================================== single-object faults ====
 
+WBEM_OPERATIONS = ('CreateClass', 'ModifyClass', 'DeleteClass',
+                   'SetQualifier', 'DeleteQualifier', 'CreateInstance',
+                   'ModifyInstance', 'DeleteInstance')
+
+
+def respell(rng, ns):
+    """The same namespace name in another lexical case."""
+    for _ in range(8):
+        v = repogen.vcase(rng, ns)
+        if v != ns:
+            return v
+    return ns.swapcase()
+
+
 def run_singles(mon, st):
     rng = st.rng
     conn = st.conn
     s = st.s
 
     def go(api, reason, fn, desc, tag=None):
-        return mon.faulted(api, reason, fn, desc, tag=tag)
+        return mon.faulted(api, reason, fn, desc, tag=tag,
+                           typed=api in WBEM_OPERATIONS and
+                           reason != 'invalid-type')
 
     for ns in s.namespaces:
         # ---------------------------------------------------------- classes
@@ -979,8 +1018,8 @@ def run_singles(mon, st):
                 v.superclass = rng.choice(other).name
                 variants.append(('superclass-changed', v))
             v = deepcopy(base)
-            v.qualifiers[st.fresh('NoSuchQ_')] = CIMQualifier(
-                st.fresh('NoSuchQ_'), True)
+            qn = st.fresh('NoSuchQ_')
+            v.qualifiers[qn] = CIMQualifier(qn, True)
             variants.append(('undeclared-qualifier', v))
             v = deepcopy(base)
             v.properties['c11ref'] = CIMProperty(
@@ -1062,6 +1101,27 @@ def run_singles(mon, st):
             unk = mk()
             unk.classname = st.fresh('NoSuch_')
             variants.append(('unknown-class', unk, ns))
+            emb = [d for d in nonkey if d.embedded]
+            embvars = []
+            if emb:
+                ed = rng.choice(emb)
+                unrelated = [x.name for x in plain if not any(
+                    a.name.lower() == ed.embedded.lower()
+                    for a in s.ancestors(x.name))]
+                embvars = [('embedded-instance-of-unknown-class',
+                            st.fresh('NoSuch_'))]
+                if unrelated:
+                    embvars.append(('embedded-instance-of-unrelated-class',
+                                    rng.choice(unrelated)))
+                for reason, ecn in embvars:
+                    variants.append((reason, mk([CIMProperty(
+                        ed.name, CIMInstance(ecn, {'a': 'b'}))]), ns))
+            strs = [d for d in nonkey if d.type == 'string' and
+                    not d.is_array and not d.embedded]
+            if strs:
+                variants.append(('embedded-instance-undeclared', mk([
+                    CIMProperty(rng.choice(strs).name,
+                                CIMInstance(c.name, {'a': 'b'}))]), ns))
             ex = st.pick(st.instances_of(ns, c))
             if ex is not None:
                 dup = CIMInstance(c.name, properties=[
@@ -1117,6 +1177,11 @@ def run_singles(mon, st):
                     if nodef:
                         mvars.append(('propertylist-default-null', mi(),
                                       [rng.choice(nodef).name]))
+                for reason, ecn in embvars:
+                    mvars.append((reason, mi([CIMProperty(
+                        ed.name, CIMInstance(ecn, {'a': 'b'}))]), None))
+                mvars.append(('null-key', mi([CIMProperty(
+                    kd.name, None, type=kd.type)]), None))
                 for reason, m, pl in mvars:
                     go('ModifyInstance', reason,
                        lambda m=m, pl=pl: conn.ModifyInstance(
@@ -1133,7 +1198,9 @@ def run_singles(mon, st):
 
         # ---------------------------------------------------- associations
         for ac in st.schema_classes(ns, assoc=True):
-            refs = [p for p in ac.props if p.type == 'reference']
+            refs = [p for p in ac.props if p.type == 'reference' and p.key]
+            xrefs = [p for p in ac.props
+                     if p.type == 'reference' and not p.key]
             for cross in (False, True):
                 inst = st.assoc_instance(ns, ac, cross=cross)
                 if inst is None:
@@ -1248,6 +1315,23 @@ def run_singles(mon, st):
                                 plant_ns).delete(shadow.path)
                         except KeyError:
                             break
+                # namespace names are case insensitive: the same call with
+                # the namespaces spelled differently in the references or in
+                # the namespace parameter (valid unless the instance exists;
+                # judged only if it raises)
+                v = deepcopy(inst)
+                for p in v.properties.values():
+                    if p.type == 'reference':
+                        ep = p.value.copy()
+                        ep.namespace = respell(rng, ep.namespace)
+                        p.value = ep
+                target = rng.choice([ns, respell(rng, ns)])
+                go('CreateInstance', 'assoc-namespace-spelling',
+                   lambda: conn.CreateInstance(v, namespace=target),
+                   'CreateInstance(%s, namespace=%r) [namespace names '
+                   're-spelled%s]' % (short(repr(v), 500), target,
+                                      ', cross-namespace' if multi else ''),
+                   tag=tag)
             # an existing association instance: modify faults
             ex = st.pick(st.instances_of(ns, ac))
             if ex is not None:
@@ -1273,6 +1357,54 @@ def run_singles(mon, st):
                 go('ModifyInstance', 'assoc-undeclared-property',
                    lambda m2=m2: conn.ModifyInstance(m2),
                    'ModifyInstance(%s)' % short(repr(m2), 400), tag=tag)
+                # a further reference the stored instance does not have yet
+                # (or has as NULL): to a missing end point, then a valid one
+                bare = [i for i in st.instances_of(ns, ac) if any(
+                    i.properties.get(x.name) is None or
+                    i.properties[x.name].value is None for x in xrefs)]
+                if xrefs and bare:
+                    tgt = rng.choice(bare)
+                    x = [x for x in xrefs
+                         if tgt.properties.get(x.name) is None or
+                         tgt.properties[x.name].value is None][0]
+                    ep = st.endpoint(ns, x.ref_class, False, ac)
+                    if ep is not None:
+                        missing = ep.copy()
+                        k0 = sorted(missing.keybindings)[0]
+                        missing.keybindings[k0] = st.fresh('c11nosuch') \
+                            if isinstance(missing.keybindings[k0], str) \
+                            else repogen.key_value(rng, 'uint8')
+                        for reason, val in (
+                                ('assoc-new-reference-endpoint-missing',
+                                 missing),
+                                ('assoc-new-reference', ep)):
+                            m3 = CIMInstance(ac.name, properties=[
+                                CIMProperty(x.name, val, type='reference',
+                                            reference_class=x.ref_class)])
+                            m3.path = tgt.path.copy()
+                            go('ModifyInstance', reason,
+                               lambda m3=m3: conn.ModifyInstance(m3),
+                               'ModifyInstance(%s) [stored instance has no '
+                               'value for %s]' % (short(repr(m3), 500),
+                                                  x.name), tag=tag)
+                # the same instance addressed with the namespace spelled
+                # differently: a valid modification, then a valid deletion
+                m4 = CIMInstance(ac.name, properties=[
+                    CIMProperty(d.name, pywbem.Uint16(6), type='uint16')
+                    for d in ac.props if d.type == 'uint16'])
+                m4.path = ex.path.copy()
+                m4.path.namespace = respell(rng, m4.path.namespace)
+                go('ModifyInstance', 'assoc-namespace-spelling',
+                   lambda: conn.ModifyInstance(m4),
+                   'ModifyInstance(%s) [namespace re-spelled]' %
+                   short(repr(m4), 500), tag=tag)
+                if rng.random() < 0.5:
+                    dp = ex.path.copy()
+                    dp.namespace = respell(rng, dp.namespace)
+                    go('DeleteInstance', 'assoc-namespace-spelling',
+                       lambda: conn.DeleteInstance(dp),
+                       'DeleteInstance(%s) [namespace re-spelled]' % dp,
+                       tag=tag)
 
     # ------------------------------------------------------------ namespaces
     ns = st.pick_ns()
@@ -1354,7 +1486,8 @@ def run_namespace_provider(mon, st):
     mon.ctx.count('namespace-provider-installed')
 
     def go(api, reason, fn, desc):
-        return mon.faulted(api, reason, fn, desc, tag='namespace-provider')
+        return mon.faulted(api, reason, fn, desc, tag='namespace-provider',
+                           typed=True)
 
     nonempty = [i for i in insts
                 if i['Name'].lower() != interop.lower() and
@@ -1383,6 +1516,52 @@ def run_namespace_provider(mon, st):
            lambda: conn.CreateInstance(partial, namespace=interop),
            'CreateInstance(CIM_Namespace Name=%r with an undeclared '
            'property)' % partial['Name'])
+        # CIM_Namespace instances for a new namespace that the provider (not
+        # the dispatcher) has to reject: lacking a key other than Name and
+        # CreationClassName, a NULL key, a CreationClassName that is not the
+        # class name, a NULL Name, the name of a second Interop namespace
+        full = [(k, p.value) for k, p in ex.properties.items()
+                if p.value is not None and k.lower() != 'name']
+        others = [k for k, _ in full if k.lower() != 'creationclassname']
+        if others:
+            victim = rng.choice(others)
+            newname = st.fresh('c11ns')
+            lacking = CIMInstance('CIM_Namespace', properties=[
+                (k, v) for k, v in full if k != victim] + [('Name', newname)])
+            go('CreateInstance', 'cim_namespace-missing-key',
+               lambda: conn.CreateInstance(lacking, namespace=interop),
+               'CreateInstance(CIM_Namespace Name=%r without key property '
+               '%s)' % (newname, victim))
+            newname = st.fresh('c11ns')
+            nullkey = CIMInstance('CIM_Namespace', properties=[
+                CIMProperty(k, None if k == victim else v, type='string')
+                for k, v in full] + [CIMProperty('Name', newname)])
+            go('CreateInstance', 'cim_namespace-null-key',
+               lambda: conn.CreateInstance(nullkey, namespace=interop),
+               'CreateInstance(CIM_Namespace Name=%r with key property %s '
+               'NULL)' % (newname, victim))
+        newname = st.fresh('c11ns')
+        wrongccn = CIMInstance('CIM_Namespace', properties=[
+            (k, 'CIM_Other' if k.lower() == 'creationclassname' else v)
+            for k, v in full] + [('Name', newname)])
+        go('CreateInstance', 'cim_namespace-creationclassname-mismatch',
+           lambda: conn.CreateInstance(wrongccn, namespace=interop),
+           'CreateInstance(CIM_Namespace Name=%r CreationClassName='
+           '"CIM_Other")' % newname)
+        nullname = CIMInstance('CIM_Namespace', properties=[
+            CIMProperty(k, v, type='string') for k, v in full] + [
+            CIMProperty('Name', None, type='string')])
+        go('CreateInstance', 'cim_namespace-null-name',
+           lambda: conn.CreateInstance(nullname, namespace=interop),
+           'CreateInstance(CIM_Namespace Name=NULL)')
+        second = [n for n in ('interop', 'root/interop', 'root/PG_Interop')
+                  if n.lower() != interop.lower()][0]
+        secondi = CIMInstance('CIM_Namespace', properties=full + [
+            ('Name', second)])
+        go('CreateInstance', 'cim_namespace-second-interop',
+           lambda: conn.CreateInstance(secondi, namespace=interop),
+           'CreateInstance(CIM_Namespace Name=%r) [an Interop namespace '
+           'exists]' % second)
         wrongns = CIMInstance('CIM_Namespace', properties=[
             (k, v) for k, v in ex.properties.items() if k.lower() != 'name'] +
             [('Name', st.fresh('otherns'))])
@@ -1405,7 +1584,7 @@ def run_case(ctx, i, rng):
     # i mod W)
     n = 1 + (i + i // nmax) % nmax
     schema = repogen.gen_schema(rng, with_assoc=True, min_ns=2,
-                                ascii_only=True)
+                                ascii_only=True, with_embedded=True)
     base = os.environ.get('VERIF_WORKDIR')
     workdir = tempfile.mkdtemp(prefix='c11-%d-' % i, dir=base)
     try:
